@@ -1,0 +1,18 @@
+//go:build verif
+
+package trial
+
+import (
+	"k8s.io/apimachinery/pkg/runtime"
+	"k8s.io/client-go/tools/record"
+	"sigs.k8s.io/controller-runtime/pkg/client"
+
+	"github.com/kubeflow/katib/pkg/controller.v1beta1/trial/managerclient"
+	trialutil "github.com/kubeflow/katib/pkg/controller.v1beta1/trial/util"
+)
+
+func NewReconcilerForVerif(c client.Client, s *runtime.Scheme, rec record.EventRecorder, mc managerclient.ManagerClient, col *trialutil.TrialsCollector) *ReconcileTrial {
+	r := &ReconcileTrial{Client: c, scheme: s, recorder: rec, ManagerClient: mc, collector: col}
+	r.updateStatusHandler = r.updateStatus
+	return r
+}
